@@ -4,15 +4,7 @@
 From Coq Require Import Lia.
 From Verif Require Import Base.Str Base.Outcome Model.Ast Model.Token Gen.Keywords Model.Lexer Model.Parser Spec.Sem Spec.Normalize
   Proofs.ListenerSem Proofs.ParserComplete Proofs.LexInversion Proofs.LexEof.
-
-Definition std_text (k : tkind) : str :=
-  match k with
-  | COLON => lit ":" | STAR => lit "*" | HASH => lit "#" | COMMA => lit "," | LBRACKET => lit "[" | RPRACKET => lit "]"
-  | LPAREN => lit "(" | RPAREN => lit ")" | WHITESPACE => lit " " | OR => lit "or" | AND => lit "and"
-  | BUT_NOT => lit "but not" | FROM => lit "from" | KEYWORD_WITH => lit "with" | NEWLINE => [10]
-  | DEFINE => lit "define" | TYPE => lit "type" | RELATIONS => lit "relations" | MODEL => lit "model" | SCHEMA => lit "schema"
-  | EXTEND => lit "extend" | MODULE => lit "module" | _ => []
-  end.
+From Verif Require Export Proofs.LexFit.
 
 (* kind and text of a canonical token: punctuation and keywords carry no text there *)
 Definition kt_of (t : tok) : kt := (tk t, match ttext t with [] => std_text (tk t) | s => s end).
@@ -40,16 +32,6 @@ Proof.
   cbn [lex_ok]. assert (E : (fix all (es : list relem) : Prop := match es with [] => True | x :: r => lex_ok x /\ all r end) rest = lex_ok_all rest)
     by (induction rest as [|x r IH]; [reflexivity|cbn; rewrite IH; reflexivity]).
   rewrite E. tauto.
-Qed.
-
-(* what follows a token *)
-(* a name may also stand at the very end of the input (Proofs/LexEof.v) *)
-Definition delim_next (rest : str) : Prop := match rest with d :: _ => is_delim d = true | [] => True end.
-Definition solid_next (rest : str) : Prop := match rest with c :: _ => is_nlish c = false | [] => False end.
-
-Lemma recs_app a b rest : recs (a ++ b) rest <-> recs a (concat (map snd b) ++ rest) /\ recs b rest.
-Proof.
-  induction a as [|[k t] a IH]; cbn [app recs]; [tauto|]. rewrite IH, map_app, concat_app, <- app_assoc. tauto.
 Qed.
 
 Lemma kt_name t : name_ok t -> kt_of t = (IDENTIFIER, ttext t) /\ plain_name (ttext t) = true.
@@ -80,34 +62,15 @@ Proof. reflexivity. Qed.
 Lemma kts_app a b : kts (a ++ b) = kts a ++ kts b.
 Proof. apply map_app. Qed.
 
-(* recognition lemmas in the form "what follows has the right first character" *)
-Definition blank_next (rest : str) : Prop := match rest with c :: _ => c = 32 | [] => False end.
-
-Lemma recs_one k t rest : rec_at k t rest -> recs [(k, t)] rest.
-Proof. intros H. cbn. split; [exact H|exact I]. Qed.
-
-Lemma recs_cons x r rest : rec_at (fst x) (snd x) (concat (map snd r) ++ rest) -> recs r rest -> recs (x :: r) rest.
-Proof. destruct x. cbn. tauto. Qed.
-
-Lemma rec_name' t rest : name_ok t -> delim_next rest -> rec_at (fst (kt_of t)) (snd (kt_of t)) rest.
-Proof.
-  intros H Hd. destruct (kt_name t H) as [E Hp]. rewrite E. cbn [fst snd]. destruct rest as [|d rest]; [apply rec_name_eof; exact Hp|]. apply rec_name; assumption.
-Qed.
-Lemma rec_blank' rest : solid_next rest -> rec_at WHITESPACE (lit " ") rest.
-Proof. destruct rest as [|c rest]; [contradiction|]. apply rec_blank. Qed.
-Lemma rec_kw k rest : In k [OR; AND; BUT_NOT; FROM; KEYWORD_WITH] -> blank_next rest -> rec_at k (std_text k) rest.
-Proof.
-  intros Hk Hb. destruct rest as [|c rest]; [contradiction|]. cbn in Hb. subst c.
-  destruct Hk as [<-|[<-|[<-|[<-|[<-|[]]]]]]; [apply rec_or|apply rec_and|apply rec_but_not|apply rec_from|apply rec_with].
-Qed.
-Lemma rec_punct k rest : In k [COLON; STAR; HASH; COMMA; LBRACKET; RPRACKET; LPAREN; RPAREN] -> rec_at k (std_text k) rest.
-Proof.
-  intros Hk. destruct Hk as [<-|[<-|[<-|[<-|[<-|[<-|[<-|[<-|[]]]]]]]]];
-    [apply rec_colon|apply rec_star|apply rec_hash|apply rec_comma|apply rec_lbracket|apply rec_rbracket|apply rec_lparen|apply rec_rparen].
-Qed.
-
-Lemma delim_blank rest : blank_next rest -> delim_next rest.
-Proof. destruct rest as [|c r]; [intros []|]. cbn. intros ->. reflexivity. Qed.
+(* a canonical name fits in front of a delimiter or at the end *)
+Lemma rec_name' t rest : name_ok t -> delim_next rest -> fit (fst (kt_of t)) (snd (kt_of t)) rest.
+Proof. intros H Hd. destruct (kt_name t H) as [E Hp]. rewrite E. cbn [fst snd]. apply fit_name; assumption. Qed.
+Lemma rec_blank' rest : solid_next rest -> fit WHITESPACE (lit " ") rest.
+Proof. apply fit_blank. Qed.
+Lemma rec_kw k rest : In k [OR; AND; BUT_NOT; FROM; KEYWORD_WITH] -> blank_next rest -> fit k (std_text k) rest.
+Proof. intros Hk. apply fit_kw. unfold kw_blank. cbn in Hk |- *. tauto. Qed.
+Lemma rec_punct k rest : In k [COLON; STAR; HASH; COMMA; LBRACKET; RPRACKET; LPAREN; RPAREN] -> fit k (std_text k) rest.
+Proof. apply fit_punct. Qed.
 
 (* ---- a type restriction ---- *)
 Lemma restr_text_solid r rest : restr_lex_ok r -> solid_next (text_of (toks_restr r) ++ rest).
@@ -116,71 +79,71 @@ Proof.
   rewrite <- app_assoc. apply name_solid. exact Hp.
 Qed.
 
-Lemma recs_restr r rest : restr_lex_ok r -> delim_next rest -> recs (kts (toks_restr r)) rest.
+Lemma recs_restr r rest : restr_lex_ok r -> delim_next rest -> fits (kts (toks_restr r)) rest.
 Proof.
   intros (Ht & Hk & Hc) Hd. unfold toks_restr.
   (* the condition part *)
-  assert (Hcond : recs (kts (match rs_cond r with Some c => [mk WHITESPACE; mk KEYWORD_WITH; mk WHITESPACE; c] | None => [] end)) rest /\
+  assert (Hcond : fits (kts (match rs_cond r with Some c => [mk WHITESPACE; mk KEYWORD_WITH; mk WHITESPACE; c] | None => [] end)) rest /\
                   delim_next (text_of (match rs_cond r with Some c => [mk WHITESPACE; mk KEYWORD_WITH; mk WHITESPACE; c] | None => [] end) ++ rest)).
   { destruct (rs_cond r) as [c|]; [|split; [exact I|exact Hd]]. split; [|reflexivity].
     destruct (kt_name c Hc) as [Ec Hpc].
-    cbn [kts map]. rewrite !kt_of_mk, Ec. apply recs_cons; [|apply recs_cons; [|apply recs_cons; [|apply recs_one]]]; cbn [fst snd std_text map concat app].
+    cbn [kts map]. rewrite !kt_of_mk, Ec. apply fits_cons; [|apply fits_cons; [|apply fits_cons; [|apply fits_one]]]; cbn [fst snd std_text map concat app].
     - apply rec_blank'. reflexivity.
     - apply (rec_kw KEYWORD_WITH); [cbn; tauto|reflexivity].
     - apply rec_blank'. rewrite app_nil_r. apply name_solid. exact Hpc.
-    - destruct rest as [|d rest']; [apply rec_name_eof; exact Hpc|]. apply rec_name; assumption. }
+    - apply fit_name; assumption. }
   destruct Hcond as [Rc Dc].
   set (cp := match rs_cond r with Some c => [mk WHITESPACE; mk KEYWORD_WITH; mk WHITESPACE; c] | None => [] end) in *.
   change (kts (rs_type r :: (match rs_kind r with RKWild => [mk COLON; mk STAR] | RKRel t => [mk HASH; t] | RKPlain => [] end) ++ cp))
     with (kt_of (rs_type r) :: kts ((match rs_kind r with RKWild => [mk COLON; mk STAR] | RKRel t => [mk HASH; t] | RKPlain => [] end) ++ cp)).
   fold (text_of cp) in Dc.
   destruct (rs_kind r) as [| |t].
-  - cbn [app]. apply recs_cons; [|exact Rc]. fold (text_of cp). apply rec_name'; assumption.
-  - rewrite kts_app. apply recs_cons.
+  - cbn [app]. apply fits_cons; [|exact Rc]. fold (text_of cp). apply rec_name'; assumption.
+  - rewrite kts_app. apply fits_cons.
     + apply rec_name'; [exact Ht|]. reflexivity.
-    + apply recs_app. split; [|exact Rc]. fold (text_of cp).
-      apply recs_cons; [apply (rec_punct COLON); cbn; tauto|apply recs_one; apply (rec_punct STAR); cbn; tauto].
-  - rewrite kts_app. apply recs_cons.
+    + apply fits_app. split; [|exact Rc]. fold (text_of cp).
+      apply fits_cons; [apply (rec_punct COLON); cbn; tauto|apply fits_one; apply (rec_punct STAR); cbn; tauto].
+  - rewrite kts_app. apply fits_cons.
     + apply rec_name'; [exact Ht|]. reflexivity.
-    + apply recs_app. split; [|exact Rc]. fold (text_of cp).
-      apply recs_cons; [apply (rec_punct HASH); cbn; tauto|apply recs_one; apply rec_name'; assumption].
+    + apply fits_app. split; [|exact Rc]. fold (text_of cp).
+      apply fits_cons; [apply (rec_punct HASH); cbn; tauto|apply fits_one; apply rec_name'; assumption].
 Qed.
 
 (* ---- a direct assignment ---- *)
 Lemma recs_restrs_more rs : forall rest, Forall restr_lex_ok rs ->
-  recs (kts (toks_restrs_more rs)) rest /\ delim_next (text_of (toks_restrs_more rs) ++ rest).
+  fits (kts (toks_restrs_more rs)) rest /\ delim_next (text_of (toks_restrs_more rs) ++ rest).
 Proof.
   induction rs as [|r rs IH]; intros rest H.
-  - cbn [toks_restrs_more kts map]. rewrite kt_of_mk. split; [apply recs_one; apply (rec_punct RPRACKET); cbn; tauto|reflexivity].
+  - cbn [toks_restrs_more kts map]. rewrite kt_of_mk. split; [apply fits_one; apply (rec_punct RPRACKET); cbn; tauto|reflexivity].
   - inversion H as [|? ? Hr Hrs]; subst. destruct (IH rest Hrs) as [R D]. cbn [toks_restrs_more]. split; [|reflexivity].
     change (mk COMMA :: mk WHITESPACE :: toks_restr r ++ toks_restrs_more rs) with ([mk COMMA; mk WHITESPACE] ++ toks_restr r ++ toks_restrs_more rs).
-    rewrite !kts_app. apply recs_app. split.
+    rewrite !kts_app. apply fits_app. split.
     + cbn [kts map]. rewrite !kt_of_mk. fold (kts (toks_restr r ++ toks_restrs_more rs)). fold (text_of (toks_restr r ++ toks_restrs_more rs)).
-      apply recs_cons; [apply (rec_punct COMMA); cbn; tauto|apply recs_one]. cbn [fst snd std_text].
+      apply fits_cons; [apply (rec_punct COMMA); cbn; tauto|apply fits_one]. cbn [fst snd std_text].
       apply rec_blank'. rewrite <- kts_app. fold (text_of (toks_restr r ++ toks_restrs_more rs)). rewrite text_of_app, <- app_assoc. apply restr_text_solid. exact Hr.
-    + apply recs_app. split; [|exact R]. fold (text_of (toks_restrs_more rs)). apply recs_restr; assumption.
+    + apply fits_app. split; [|exact R]. fold (text_of (toks_restrs_more rs)). apply recs_restr; assumption.
 Qed.
 
-Lemma recs_direct rs rest : Forall restr_lex_ok rs -> recs (kts (toks_direct rs)) rest /\ solid_next (text_of (toks_direct rs) ++ rest).
+Lemma recs_direct rs rest : Forall restr_lex_ok rs -> fits (kts (toks_direct rs)) rest /\ solid_next (text_of (toks_direct rs) ++ rest).
 Proof.
   intros H. destruct rs as [|r rs]; cbn [toks_direct].
-  - split; [|reflexivity]. cbn [kts map]. rewrite !kt_of_mk. apply recs_cons; [apply (rec_punct LBRACKET); cbn; tauto|apply recs_one; apply (rec_punct RPRACKET); cbn; tauto].
+  - split; [|reflexivity]. cbn [kts map]. rewrite !kt_of_mk. apply fits_cons; [apply (rec_punct LBRACKET); cbn; tauto|apply fits_one; apply (rec_punct RPRACKET); cbn; tauto].
   - inversion H as [|? ? Hr Hrs]; subst. destruct (recs_restrs_more rs rest Hrs) as [R D]. split; [|reflexivity].
     change (mk LBRACKET :: toks_restr r ++ toks_restrs_more rs) with ([mk LBRACKET] ++ toks_restr r ++ toks_restrs_more rs).
-    rewrite !kts_app. apply recs_app. split.
-    + cbn [kts map]. rewrite kt_of_mk. apply recs_one. apply (rec_punct LBRACKET); cbn; tauto.
-    + apply recs_app. split; [|exact R]. fold (text_of (toks_restrs_more rs)). apply recs_restr; assumption.
+    rewrite !kts_app. apply fits_app. split.
+    + cbn [kts map]. rewrite kt_of_mk. apply fits_one. apply (rec_punct LBRACKET); cbn; tauto.
+    + apply fits_app. split; [|exact R]. fold (text_of (toks_restrs_more rs)). apply recs_restr; assumption.
 Qed.
 
 (* ---- operands ---- *)
 Definition elem_lexes (e : relem) : Prop :=
-  lex_ok e -> forall rest, delim_next rest -> recs (kts (toks_elem e)) rest /\ solid_next (text_of (toks_elem e) ++ rest).
+  lex_ok e -> forall rest, delim_next rest -> fits (kts (toks_elem e)) rest /\ solid_next (text_of (toks_elem e) ++ rest).
 
 Lemma optok_kw op : op <> ONone -> In (optok op) [OR; AND; BUT_NOT; FROM; KEYWORD_WITH].
 Proof. destruct op; cbn; tauto. Qed.
 
 Lemma recs_partials op es : Forall elem_lexes es -> lex_ok_all es -> (op = ONone -> es = []) -> forall rest, delim_next rest ->
-  recs (kts (toks_partials op es)) rest /\ delim_next (text_of (toks_partials op es) ++ rest).
+  fits (kts (toks_partials op es)) rest /\ delim_next (text_of (toks_partials op es) ++ rest).
 Proof.
   induction 1 as [|x es Hx _ IH]; intros Hok Hop rest Hd; [split; [exact I|exact Hd]|].
   cbn [lex_ok_all] in Hok. destruct Hok as [Hokx Hokr]. assert (Hne : op <> ONone) by (intros E; specialize (Hop E); discriminate).
@@ -188,13 +151,13 @@ Proof.
   cbn [toks_partials]. split; [|reflexivity].
   change (mk WHITESPACE :: mk (optok op) :: mk WHITESPACE :: toks_elem x ++ toks_partials op es)
     with ([mk WHITESPACE; mk (optok op); mk WHITESPACE] ++ toks_elem x ++ toks_partials op es).
-  rewrite !kts_app. apply recs_app. split.
+  rewrite !kts_app. apply fits_app. split.
   - cbn [kts map]. rewrite !kt_of_mk. rewrite <- kts_app. fold (text_of (toks_elem x ++ toks_partials op es)).
-    apply recs_cons; [|apply recs_cons; [|apply recs_one]]; cbn [fst snd map concat app].
+    apply fits_cons; [|apply fits_cons; [|apply fits_one]]; cbn [fst snd map concat app].
     + apply rec_blank'. destruct op; try contradiction; reflexivity.
     + apply rec_kw; [apply optok_kw; exact Hne|reflexivity].
     + apply rec_blank'. rewrite text_of_app, <- app_assoc. exact Sx.
-  - apply recs_app. split; [|exact R]. fold (text_of (toks_partials op es)). exact Rx.
+  - apply fits_app. split; [|exact R]. fold (text_of (toks_partials op es)). exact Rx.
 Qed.
 
 Theorem elem_lexes_all e : elem_lexes e.
@@ -204,24 +167,24 @@ Proof.
   - cbn [lex_ok] in Hok. destruct Hok as [Hcu Hts]. destruct ts as [t|]; cbn [toks_elem].
     + destruct (kt_name cu Hcu) as [Ecu Hpcu]. destruct (kt_name t Hts) as [Et Hpt]. split.
       * cbn [kts map]. rewrite !kt_of_mk, Ecu, Et.
-        apply recs_cons; [|apply recs_cons; [|apply recs_cons; [|apply recs_cons; [|apply recs_one]]]]; cbn [fst snd std_text map concat app].
-        -- apply rec_name; [exact Hpcu|reflexivity].
+        apply fits_cons; [|apply fits_cons; [|apply fits_cons; [|apply fits_cons; [|apply fits_one]]]]; cbn [fst snd std_text map concat app].
+        -- apply fit_name; [exact Hpcu|reflexivity].
         -- apply rec_blank'. reflexivity.
         -- apply (rec_kw FROM); [cbn; tauto|reflexivity].
         -- apply rec_blank'. rewrite app_nil_r. apply name_solid. exact Hpt.
-        -- destruct tail as [|d tail']; [apply rec_name_eof; exact Hpt|]. apply rec_name; assumption.
+        -- apply fit_name; assumption.
       * rewrite text_of_cons, Ecu. cbn [snd]. rewrite <- app_assoc. apply name_solid. exact Hpcu.
     + destruct (kt_name cu Hcu) as [Ecu Hpcu]. split.
-      * cbn [kts map]. rewrite Ecu. apply recs_one. destruct tail as [|d tail']; [apply rec_name_eof; exact Hpcu|]. apply rec_name; assumption.
+      * cbn [kts map]. rewrite Ecu. apply fits_one. apply fit_name; assumption.
       * rewrite text_of_cons, Ecu. cbn [snd]. rewrite <- app_assoc. apply name_solid. exact Hpcu.
   - destruct (proj1 (lex_ok_group _ _ _ _) Hok) as (Hf & Hr & Hop). rewrite toks_elem_group. split; [|reflexivity].
     unfold toks_def. change (mk LPAREN :: (toks_elem first ++ toks_partials op rest) ++ [mk RPAREN])
       with ([mk LPAREN] ++ (toks_elem first ++ toks_partials op rest) ++ [mk RPAREN]).
-    rewrite !kts_app. apply recs_app. split; [cbn [kts map]; rewrite kt_of_mk; apply recs_one; apply (rec_punct LPAREN); cbn; tauto|].
-    apply recs_app. split; [|cbn [kts map]; rewrite kt_of_mk; apply recs_one; apply (rec_punct RPAREN); cbn; tauto].
+    rewrite !kts_app. apply fits_app. split; [cbn [kts map]; rewrite kt_of_mk; apply fits_one; apply (rec_punct LPAREN); cbn; tauto|].
+    apply fits_app. split; [|cbn [kts map]; rewrite kt_of_mk; apply fits_one; apply (rec_punct RPAREN); cbn; tauto].
     cbn [kts map concat app]. rewrite kt_of_mk. cbn [snd std_text app].
     destruct (recs_partials op rest IHr Hr Hop (lit ")" ++ tail) eq_refl) as [Rp Dp].
-    apply recs_app. split; [|exact Rp]. fold (text_of (toks_partials op rest)). apply IHf; assumption.
+    apply fits_app. split; [|exact Rp]. fold (text_of (toks_partials op rest)). apply IHf; assumption.
 Qed.
 
 (* ---- a whole relation definition ---- *)
@@ -229,9 +192,9 @@ Definition rdef_lex_ok (d : rdef) : Prop :=
   lex_ok (rd_first d) /\ lex_ok_all (rd_rest d) /\ (rd_op d = ONone -> rd_rest d = []).
 
 Theorem rdef_lexes d rest : rdef_lex_ok d -> delim_next rest ->
-  recs (kts (toks_def (rd_first d) (rd_op d) (rd_rest d))) rest.
+  fits (kts (toks_def (rd_first d) (rd_op d) (rd_rest d))) rest.
 Proof.
-  intros (Hf & Hr & Hop) Hd. unfold toks_def. rewrite kts_app. apply recs_app.
+  intros (Hf & Hr & Hop) Hd. unfold toks_def. rewrite kts_app. apply fits_app.
   assert (Hall : Forall elem_lexes (rd_rest d)) by (apply Forall_forall; intros; apply elem_lexes_all).
   destruct (recs_partials (rd_op d) (rd_rest d) Hall Hr Hop rest Hd) as [Rp Dp]. split; [|exact Rp].
   fold (text_of (toks_partials (rd_op d) (rd_rest d))). apply elem_lexes_all; assumption.
@@ -324,7 +287,7 @@ Theorem printed_definition_lexes d rest :
   map (fun t => (tk t, ttext t)) (fst (lex_all s)) = ts ++ fst (lexk (S (length s) - length ts) rest 0) /\
   length (snd (lex_all s)) = snd (lexk (S (length s) - length ts) rest 0).
 Proof.
-  intros Hok Hd s ts. pose proof (rdef_lexes d rest Hok Hd) as R. fold ts in R.
+  intros Hok Hd s ts. pose proof (fits_recs _ _ (rdef_lexes d rest Hok Hd)) as R. fold ts in R.
   assert (Etxt : concat (map snd ts) = render_rdef d) by (apply rdef_text; exact Hok).
   pose proof (recs_length ts rest R) as Hlen. rewrite Etxt in Hlen.
   unfold lex_all. destruct (lex_loop_lexk (S (length s)) s 0 1 0) as [A B]. rewrite A, B.
@@ -340,7 +303,7 @@ Corollary printed_line_lexes d :
   snd (lex_all (render_rdef d ++ [10])) = [].
 Proof.
   intros Hok. destruct (printed_definition_lexes d [10] Hok eq_refl) as [A B]. cbv zeta in A, B.
-  pose proof (recs_length _ [10] (rdef_lexes d [10] Hok eq_refl)) as Hlen. pose proof (rdef_text d Hok) as Et. unfold text_of in Et. rewrite Et in Hlen.
+  pose proof (recs_length _ [10] (fits_recs _ _ (rdef_lexes d [10] Hok eq_refl))) as Hlen. pose proof (rdef_text d Hok) as Et. unfold text_of in Et. rewrite Et in Hlen.
   rewrite app_length in A, B. cbn [length] in A, B.
   replace (S (length (render_rdef d) + 1) - length (kts (toks_def (rd_first d) (rd_op d) (rd_rest d))))%nat
     with (S (S (length (render_rdef d) - length (kts (toks_def (rd_first d) (rd_op d) (rd_rest d))))))%nat in A, B by lia.
